@@ -52,6 +52,10 @@ void run_group(Rng & rng, int n, double tol)
       }
     };
     chk("d2r_exp", mto_ld(G::d2r_exp(a)), Hwant);
+    chk("api_free_d2r_exp", mto_ld(smooth::d2r_exp<G>(a)), mto_ld(G::d2r_exp(a)));
+    chk("api_free_d2r_expinv", mto_ld(smooth::d2r_expinv<G>(a)), mto_ld(G::d2r_expinv(a)));
+    chk("api_free_d2l_exp", mto_ld(smooth::d2l_exp<G>(a)), mto_ld(G::d2l_exp(a)));
+    chk("api_free_d2l_expinv", mto_ld(smooth::d2l_expinv<G>(a)), mto_ld(G::d2l_expinv(a)));
     chk("d2r_expinv", mto_ld(G::d2r_expinv(a)), Hiwant);
     // left counterparts: d2l_exp(a) = - d2r_exp(-a) is the Hessian of the left Jacobian Jl(a) = Jr(-a)
     {
